@@ -11,7 +11,7 @@ from .. import tree
 
 ID = 'C10'
 LEVEL = 'model_checking'
-RULE = ('every OMEN model of the families in coverage.bounds x every target level 0..7 is enumerated by the real MarkovCracker until None and compared as a multiset '
+RULE = ('every OMEN model of the families in coverage.bounds x every target level 0..7 (0..20 / 0..30 on the families with expensive transitions) is enumerated by the real MarkovCracker until None and compared as a multiset '
         'with the reference level set (plain DFS over the model); histories: a state is (model, contents of the shared Optimizer as left by the operations so far, generator cursors), '
         'operations gen(L) to exhaustion and gen(L) paused after j guesses / resumed; all ordered pairs of levels and all pause points j on the history families; '
         'transitions = next_guess() calls; non-trivial = (model, level) whose level set has >= 2 strings')
@@ -96,6 +96,9 @@ def families(tier):
     # level 10 entries (the start scan stops below max_level) and long strings crossing Optimizer.max_length = 4
     fam['ng2_long'] = (lambda: models_ngram2([0, 1], [0, 1, ABSENT], [0, ABSENT], [3, 6, 7]), 'levels')
     fam['ng2_lvl10'] = (lambda: models_ngram2([0, 10, ABSENT], [0, 2, 10], [0, 10], [2, 3]), 'levels')
+    # expensive transitions and target levels above max_level (10): remaining budgets above 10 inside the search and the cache
+    fam['ng2_high'] = (lambda: models_ngram2([0, 6], [0, 5, 6, ABSENT], [0, 1], [3, 4, 5]), 'levels', range(0, 21))
+    fam['ng2_high10'] = (lambda: models_ngram2([0, 4], [1, 7, 10, ABSENT], [0], [3, 5]), 'levels', range(0, 31))
     # histories
     fam['ng2_hist'] = (lambda: models_ngram2([0, 1], [0, 1, 2, ABSENT], [0, 1], [3, 4]), 'pairs')
     if tier == 'thorough':
@@ -122,7 +125,7 @@ def shards(tier):
 
 
 def bounds(tier):
-    return {'families': sorted(families(tier)), 'target_levels': '0..7', 'alphabet': '{a,b} ({a,b,c} sub-sweep in thorough)',
+    return {'families': sorted(families(tier)), 'target_levels': '0..7 (0..20 and 0..30 on the high-level families)', 'alphabet': '{a,b} ({a,b,c} sub-sweep in thorough)',
             'ngram': '2 (3 in thorough)', 'level_values': '{0,1,2,absent} (+10 in ng2_lvl10)',
             'histories': 'fresh optimizer per level; one optimizer over levels ascending and descending; all ordered pairs (L1,L2) in 0..5; L1 paused after every j, L2 run, L1 resumed'}
 
@@ -149,12 +152,12 @@ def cmp_level(out, ref, L):
     return 'level %d: missing %r, unexpected/duplicated %r (%d emitted, %d in the level)' % (L, missing, extra, len(out), sum(want.values()))
 
 
-def explore_model(mods, m, mode, acc, counting=True):
+def explore_model(mods, m, mode, acc, counting=True, levels=None):
     MarkovCracker, Optimizer = mods
     fails = []
     g = build(m)
     ref = reference(m)
-    levels = range(0, 8)
+    levels = levels if levels is not None else range(0, 8)
 
     def gen(L, opt):
         return MarkovCracker(g, L, opt)
@@ -228,19 +231,21 @@ def run_shard(shard, tier, acc):
     name, si, ns = shard
     tree.use()
     mods = (tree.imp('lib_guesser.omen.markov_cracker').MarkovCracker, tree.imp('lib_guesser.omen.optimizer').Optimizer)
-    gen, mode = families(tier)[name]
+    fam = families(tier)[name]
+    gen, mode = fam[0], fam[1]
+    levels = fam[2] if len(fam) > 2 else None
     for idx, m in enumerate(gen()):
         if idx % ns != si:
             continue
         acc.evals += 1
-        fails = explore_model(mods, m, mode, acc)
+        fails = explore_model(mods, m, mode, acc, levels=levels)
         if idx % 200 == 0 or fails:
-            f2 = explore_model(mods, m, mode, acc, counting=False)
+            f2 = explore_model(mods, m, mode, acc, counting=False, levels=levels)
             acc.validated += 1
             if f2 != fails:
                 fails.append(('nondeterministic', 'two explorations of the same model differ'))
         for sig, msg in fails:
-            acc.fail({'model': m, 'mode': mode}, msg, sig)
+            acc.fail({'model': m, 'mode': mode, 'levels': [levels[0], levels[-1]] if levels else None}, msg, sig)
         if idx % 5003 == si:
             ref = reference(m)
             acc.sample({'family': name, 'model': m, 'level_sizes': {L: sum(c.values()) for L, c in sorted(ref.items())}}, cap=1)
@@ -252,5 +257,6 @@ def replay(case):
     mods = (tree.imp('lib_guesser.omen.markov_cracker').MarkovCracker, tree.imp('lib_guesser.omen.optimizer').Optimizer)
     m = case['model']
     m = {'ngram': m['ngram'], 'ip': dict(m['ip']), 'cp': dict(m['cp']), 'ln': {int(k): v for k, v in m['ln'].items()}}
-    fails = explore_model(mods, m, case.get('mode', 'pairs'), Acc())
+    lv = case.get('levels')
+    fails = explore_model(mods, m, case.get('mode', 'pairs'), Acc(), levels=range(lv[0], lv[1] + 1) if lv else None)
     return fails[0][1] if fails else None
